@@ -200,9 +200,59 @@ def declare_orders(ctx, n, perm, by_constructor):
         ctx.violation('C14:function-changed', 'parity built after the declarations is wrong', M.case())
 
 
+def autoref_add_var(ctx, n):
+    """add_var through dd.autoref: idempotent re-declaration, conflicting levels (level 0
+    included) refused, new names at the next bottom level; live Functions keep their function"""
+    from .C12 import abuild, by_name
+    rng = ctx.rng
+    s = ctx.session(f'autoref add_var n={n}')
+    A = 'a0'
+    s.op(A, 'new', {v: v for v in range(n)})
+    a = s.impl.amgr[A]
+    H = s.impl.handles[A]
+    hs = [abuild(s, A, rng.getrandbits(1 << n) | 6, n) for _ in range(2)]
+    before = {h: by_name(a._bdd, H[h].node, n) for h in hs}
+    case = lambda: dict(stream=s.label, lines=list(s.lines))  # noqa: E731
+    fresh = n
+    for v in list(range(n)) + [n, n + 1]:
+        for l in [None] + list(range(0, n + 2)):
+            declared = {int(x[1:]): lv for x, lv in a.vars.items()}
+            r = s.op(A, 'add_var', v, l)
+            ctx.case(('autoref-add_var', n, v, l, tuple(sorted(declared.items()))), True)
+            ctx.count('autoref-add_var')
+            nv = len(declared)
+            if v in declared:
+                ok = l is None or l == declared[v]
+                if ok and r != declared[v]:
+                    ctx.violation('C14:not-idempotent', f'add_var({v},{l}) returned {r}, declared at {declared[v]}', case)
+                if not ok and r is not None:
+                    ctx.violation('C14:conflict-accepted', f'add_var({v},{l}) accepted although {v} is at level {declared[v]}', case)
+            else:
+                if l is None or l == nv:
+                    if r != nv:
+                        ctx.violation('C14:not-bottom', f'new variable {v} got level {r}, expected {nv}', case)
+                elif l < nv:
+                    if r is not None:
+                        ctx.violation('C14:conflict-accepted', f'add_var({v},{l}) accepted although level {l} is taken', case)
+                else:
+                    if r is not None:
+                        ctx.violation('C14:level-gap-accepted', f'add_var({v}, {l}) accepted with {nv} variables declared', case)
+                        return
+            if {x: lv for x, lv in a.vars.items()} != dict(a.var_levels):
+                ctx.violation('C14:views', 'vars and var_levels disagree', case)
+            for h, t in before.items():
+                if by_name(a._bdd, H[h].node, n) != t:
+                    ctx.violation('C14:function-changed', f'live Function {h} changed', case)
+                    return
+    for h in hs:
+        s.op(A, 'drop', h)
+
+
 def run(ctx):
     q = ctx.quick
     import itertools
+    for n in (1, 2, 3):
+        autoref_add_var(ctx, n)
     for n in (1, 2, 3) if q else (1, 2, 3, 4):
         for perm in itertools.permutations(range(n)):
             declare_orders(ctx, n, perm, True)
